@@ -376,7 +376,7 @@ impl ChunkDeserializer {
         &mut self,
         message_to_return: &mut Option<MessagePayload>,
     ) -> Result<ParseStageResult, ChunkDeserializationError> {
-        let mut length = self.current_header.message_length as usize;
+        let length = self.current_header.message_length as usize;
         let current_payload_length = self.current_payload_data.len();
         let remaining_bytes = match length.checked_sub(current_payload_length) {
             Some(x) => x,
@@ -388,9 +388,8 @@ impl ChunkDeserializer {
                 )));
             }
         };
-        if length > self.max_chunk_size as usize {
-            length = min(remaining_bytes, self.max_chunk_size as usize);
-        }
+        // A chunk carries what is still missing of the message, at most one chunk size of it
+        let length = min(remaining_bytes, self.max_chunk_size as usize);
 
         if self.buffer.len() < length {
             return Ok(ParseStageResult::NotEnoughBytes);
